@@ -185,8 +185,13 @@ class Real(Part):
         self.n = 0
 
     def teardown(self, ctx):
+        from vlib.core import Watchdog
+
         try:
-            self.group.terminate(timeout=3.0)
+            with Watchdog(30):
+                self.group.terminate(timeout=3.0)
+        except BaseException:  # noqa: BLE001
+            pass
         finally:
             atexit.unregister(self.group._cleanup_atexit)
 
@@ -200,9 +205,14 @@ class Real(Part):
         if self.n % 40 == 0 or not self.gw.hasreceiver():
             self.gw.exit()
             self.gw = self.group.makegateway("popen")
+        from vlib.core import Watchdog
+
         program, expects = TP.build_c02_program(params)
-        res = convo.run_a(self.gw, f"r{ctx.shard}-{next(_pid)}", program, inproc.CONVO_SRC)
+        with Watchdog(150) as wd:
+            res = convo.run_a(self.gw, f"r{ctx.shard}-{next(_pid)}", program, inproc.CONVO_SRC)
         try:
+            if wd.fired:
+                raise Violation("real.hang", "program did not finish within 150 s (normal: < 2 s)")
             TP.check_actor_health(res, "real")
             if res["report"] != "ok":
                 raise Violation("real.report-failed", res["report"])
